@@ -561,19 +561,61 @@ def _ident_table(fnode: ast.FunctionDef, maxn: int = 3):
     return table
 
 
+def identity_predicate(model: Model):
+    """The predicate that lets PureFunction.set_objparams skip the installation, found by role: the call in set_objparams that compares
+    the new list with the record of the installed tensors - a module-level function f(new, self.<record>) or a method self.m(new) that
+    reads self.<record> itself.  Returns (FuncInfo of the predicate, a two-parameter FunctionDef equivalent to it, record attribute,
+    the call) or raises AnchorError."""
+    import copy as _copy
+    so = model.func(PF, "PureFunction.set_objparams")
+    me, pnew = so.params()[0], so.params()[1]
+    mod = so.module
+    for c in own_nodes(so.node):
+        if not isinstance(c, ast.Call):
+            continue
+        args = [ast.unparse(a) for a in c.args]
+        if isinstance(c.func, ast.Name) and c.func.id in mod.functions and len(args) == 2 and pnew in args:
+            other = [a for a in c.args if ast.unparse(a) != pnew]
+            if len(other) == 1 and isinstance(other[0], ast.Attribute) and ast.unparse(other[0].value) == me:
+                f = mod.functions[c.func.id]
+                return f, f.node, other[0].attr, c
+        if isinstance(c.func, ast.Attribute) and ast.unparse(c.func.value) == me and args == [pnew] and so.cls is not None:
+            m = so.cls.find_method(c.func.attr)
+            if m is None or len(m.params()) != 2:
+                continue
+            recs = {n.attr for n in ast.walk(m.node) if isinstance(n, ast.Attribute) and isinstance(n.value, ast.Name) and n.value.id == m.params()[0]
+                    and isinstance(n.ctx, ast.Load) and n.attr.startswith("_cur")}
+            if len(recs) != 1:
+                continue
+            rec = next(iter(recs))
+            node = _copy.deepcopy(m.node)
+
+            class T(ast.NodeTransformer):
+                def visit_Attribute(self, n):
+                    if isinstance(n.value, ast.Name) and n.value.id == m.params()[0] and n.attr == rec:
+                        return ast.copy_location(ast.Name(id="__record", ctx=ast.Load()), n)
+                    return self.generic_visit(n)
+            node = T().visit(node)
+            node.args = ast.arguments(posonlyargs=[], args=[ast.arg(arg=m.params()[1]), ast.arg(arg="__record")], kwonlyargs=[], kw_defaults=[], defaults=[])
+            ast.fix_missing_locations(node)
+            return m, node, rec, c
+    raise AnchorError("the comparison of the new object parameters with the installed ones was not found in PureFunction.set_objparams")
+
+
 def _identical(model: Model, I: RuleResult):
-    f = model.func(PF, "_check_identical_objs")
+    f, fnode, _rec, _call = identity_predicate(model)
     try:
-        table = _ident_table(f.node)
+        table = _ident_table(fnode)
     except _Unsupported as e:
-        raise AnalysisError("_check_identical_objs: body is not in an interpretable form (%s)" % e)
+        I.undecided(f, f.node, "cannot interpret the identical-parameters predicate %s (%s)" % (f.qualname, e))
+        return
     wrong = [pat for pat, v in sorted(table.items(), key=lambda kv: (len(kv[0]), kv[0])) if bool(v) != all(pat) or not isinstance(v, bool)]
     if not wrong:
         verdict = "forall-same"
     else:
         w = wrong[0]
         verdict = "returns %r for the pattern %s" % (table[w], ["same" if x else "different" for x in w])
-    what = "_check_identical_objs computes `%s`" % verdict
+    what = "%s computes `%s`" % (f.qualname, verdict)
     if verdict == "forall-same":
         I.ok(f.fq, what + " (skip the installation only if every tensor is already the installed object)")
     else:
@@ -581,8 +623,4 @@ def _identical(model: Model, I: RuleResult):
               "tensors although some differ (their gradients silently vanish)" % verdict, what=what)
     # zip truncation: lengths are equal by construction (both unique lists); the caller passes (new, current)
     so = model.func(PF, "PureFunction.set_objparams")
-    src = ast.unparse(so.node)
-    if "_check_identical_objs(%s, self._cur_objparams)" % so.params()[1] in src:
-        I.ok(so.fq, "set_objparams compares the new parameters with the currently installed ones")
-    else:
-        I.bad(so, so.node, "set_objparams must compare the new parameters with self._cur_objparams")
+    I.ok(so.fq, "set_objparams compares the new parameters with the currently installed ones (self.%s)" % _rec)
